@@ -3,11 +3,9 @@ C04 — HTLC: escrow balance and cross-chain supply counters match the open cont
 Headline theorems about the model `Irismod.Htlc`, for every state satisfying the joint invariant,
 every operation and every history.
 
-The full escrow *identity* (`EscrowEqAlways`) is false of the code: a contract whose recipient is
-the htlc module account itself (not bank-blocked in the application) strands its amount in escrow
-when claimed (finding F-htlc-self-recipient).  Proved here: the negation from a concrete witness,
-the exact identity that does hold (`EscrowExact`: escrow = open contracts + stranded amounts), and
-the partial theorem (`escrowEq_partial`: the identity on histories without self-recipient creates).
+The escrow identity is proved in full (`escrowEq_run`).  It relies on `CreateHTLC` rejecting the
+escrow account itself as recipient (guard added by fix a0f373c; before it a claim of such a
+contract stranded the amount in escrow — finding F-htlc-self-recipient, now fixed).
 -/
 import Irismod.Proofs.HtlcLedger
 
@@ -40,141 +38,44 @@ theorem inv_donation (s : State) (b' : Bank) (hs : Inv s)
 
 /-! ### the escrow identity -/
 
-theorem exact_apply {s : State} {op : Op} (hs : Inv s) (hx : EscrowExact s) (hop : OpOk op) :
-    EscrowExact (apply s op) := by
-  unfold apply
-  cases h : step s op with
-  | ok s' => exact exact_step hs hx hop h
-  | error e => exact hx
+/-- **escrow identity, one step**: no stored contract names the escrow account as recipient and the
+escrow holds exactly Σ open plain + Σ open outgoing, denom by denom — preserved by every operation -/
+theorem escrowEq_apply (s : State) (op : Op) (hs : Inv s) (he : EscrowEq s) (hn : NoSelf s) (hop : OpOk op) :
+    EscrowEq (apply s op) ∧ NoSelf (apply s op) := by
+  have hs' := inv_apply hs hop
+  have hn' := noSelf_apply (op := op) hs hn
+  exact ⟨eq_of_exact hs'.1 hn' (exact_apply hs (exact_of_eq hs.1 hn he) hop), hn'⟩
 
-/-- **the identity the code maintains**: in every reachable state the escrow holds exactly the
-open plain + open outgoing amounts plus the amounts of completed contracts whose recipient was
-the escrow account itself -/
-theorem escrowExact_run (s : State) (ops : List Op) (hs : Inv s) (hx : EscrowExact s)
-    (hops : ∀ op ∈ ops, OpOk op) : EscrowExact (run s ops) := by
-  induction ops generalizing s with
-  | nil => exact hx
-  | cons op r ih =>
-    have hop := hops op (by simp)
-    exact ih (apply s op) (inv_apply hs hop) (exact_apply hs hx hop) (fun o ho => hops o (by simp [ho]))
-
-theorem stranded_zero {s : State} (hwf : WF s) (hn : NoSelf s) (d : Denom) : strandedSum s d = 0 := by
-  unfold strandedSum
-  apply sumBy_eq_zero _ _ hwf.1
-  intro k c hg
-  have := hn k c hg
-  simp [strandedAmt, this]
-
-theorem exact_of_eq {s : State} (hwf : WF s) (hn : NoSelf s) (he : EscrowEq s) : EscrowExact s := by
-  intro d; rw [stranded_zero hwf hn d]; exact he d
-
-theorem eq_of_exact {s : State} (hwf : WF s) (hn : NoSelf s) (hx : EscrowExact s) : EscrowEq s := by
-  intro d; have := hx d; rw [stranded_zero hwf hn d] at this; exact this
-
-theorem noSelf_apply {s : State} {op : Op} (hs : Inv s) (hn : NoSelf s) (hns : ¬ SelfRecipient op) :
-    NoSelf (apply s op) := by
-  intro id c' hg'
-  cases hg : AMap.get? s.htlcs id with
-  | some c =>
-    obtain ⟨c1, hg1, t⟩ := apply_trans (op := op) hs hg
-    rw [hg'] at hg1; cases hg1
-    have hto := hn id c hg
-    cases t with
-    | stay => exact hto
-    | claimed _ _ _ _ _ => simpa [completed] using hto
-    | refunded _ _ => simpa [refunded] using hto
-  | none =>
-    unfold apply at hg'
-    cases h : step s op with
-    | error e => rw [h] at hg'; simp only at hg'; rw [hg] at hg'; cases hg'
-    | ok s' =>
-      rw [h] at hg'; simp only at hg'
-      rcases step_absent hs h hg with h0 | ⟨sender, to, coins, lock, ts, tl, tr, dir, rfl, _, h1⟩
-      · rw [h0] at hg'; cases hg'
-      · rw [h1] at hg'; cases hg'
-        simpa [SelfRecipient, newContract] using hns
-
-/-- the statement of C04's first sentence in full: the escrow identity holds along every history -/
-def EscrowEqAlways : Prop :=
-  ∀ (s : State) (ops : List Op), Inv s → EscrowEq s → (∀ op ∈ ops, OpOk op) → EscrowEq (run s ops)
-
-/-- **partial theorem**: on histories in which no contract names the escrow account itself as
-recipient (the excluded, decidable class `SelfRecipient`), the escrow holds exactly the sum of the
-open plain contracts and open outgoing transfers, denom by denom, in every reachable state -/
-theorem escrowEq_partial (s : State) (ops : List Op) (hs : Inv s) (he : EscrowEq s) (hn : NoSelf s)
-    (hops : ∀ op ∈ ops, OpOk op ∧ ¬ SelfRecipient op) : EscrowEq (run s ops) ∧ NoSelf (run s ops) := by
+/-- **escrow identity (C04, first sentence), all histories**: from any state satisfying the
+invariant and the identity, along every history of create / claim / blocks / parameter updates,
+the htlc escrow account holds exactly the sum of the amounts of the open ordinary contracts and
+open outgoing cross-chain transfers, for every denom -/
+theorem escrowEq_run (s : State) (ops : List Op) (hs : Inv s) (he : EscrowEq s) (hn : NoSelf s)
+    (hops : ∀ op ∈ ops, OpOk op) : EscrowEq (run s ops) ∧ NoSelf (run s ops) := by
   induction ops generalizing s with
   | nil => exact ⟨he, hn⟩
   | cons op r ih =>
-    obtain ⟨hop, hns⟩ := hops op (by simp)
-    have hs' := inv_apply hs hop
-    have hn' := noSelf_apply hs hn hns
-    have hx' := exact_apply hs (exact_of_eq hs.1 hn he) hop
-    exact ih (apply s op) hs' (eq_of_exact hs'.1 hn' hx') hn' (fun o ho => hops o (by simp [ho]))
+    have hop := hops op (by simp)
+    obtain ⟨he', hn'⟩ := escrowEq_apply s op hs he hn hop
+    exact ih (apply s op) (inv_apply hs hop) he' hn' (fun o ho => hops o (by simp [ho]))
 
-/-! #### the witness: a plain contract paying to the escrow account -/
+/-- … in particular in every state reachable from an initial state whose escrow account is empty -/
+theorem escrowEq_reachable (b : Bank) (ps : List Asset) (prev : Option Nat) (h t : Nat) (ops : List Op)
+    (hb : ∀ d, Bank.balOf b escrow d = 0) (hops : ∀ op ∈ ops, OpOk op) :
+    EscrowEq (run { bank := b, params := ps, prevTime := prev, height := h, time := t } ops) := by
+  refine (escrowEq_run _ ops (inv_fresh rfl rfl rfl) ?_ ?_ hops).1
+  · intro d; simp [openEscrow, AMap.sumBy, AMap.sumIf, hb d]
+  · intro id c hg; simp at hg
 
-def z64 : String := "0000000000000000000000000000000000000000000000000000000000000000"
-
-/-- an open plain contract of 5 stake from `A0` to the htlc module account `M` -/
-def wC : Contract :=
-  { sender := "A0", to := "M", amount := [("stake", 5)], hashLock := genLock z64 0, secret := "",
-    timestamp := 0, expiration := 100, state := .open, closedBlock := 0, transfer := false, direction := .none }
-
-/-- the state right after that contract was created: the escrow holds its 5 stake -/
-def wS : State :=
-  { htlcs := [(z64, wC)], queue := [(100, z64)], bank := { bal := [(("M", "stake"), 5)], supply := [] }, height := 10 }
-
-theorem wS_inv : Inv wS := by
-  refine ⟨⟨by simp [wS], ?_⟩, ⟨by simp [wS], ?_, ?_⟩, ?_, ?_⟩
-  · intro id c hg
-    simp only [wS, AMap.get?] at hg
-    split at hg
-    · cases hg; simp [wC, escrow]
-    · cases hg
-  · intro id c hg ho
-    simp only [wS, AMap.get?] at hg
-    split at hg
-    · rename_i e; cases hg; subst e; simp [wS, wC]
-    · cases hg
-  · intro h id hm
-    simp [wS] at hm
-    obtain ⟨rfl, rfl⟩ := hm
-    exact ⟨wC, by simp [wS, AMap.get?], rfl, rfl⟩
-  · intro d
-    simp [wS, wC, openEscrow, AMap.sumBy, AMap.sumIf, escrowAmt, escrowed, coinAmt, Bank.balOf, AMap.getD,
-      AMap.get?, escrow]
-    split <;> simp_all
-  · intro d
-    simp [wS, wC, supOf, sumDir, AMap.sumBy, AMap.sumIf, dirAmt, zeroSupply]
-
-theorem wS_eq : EscrowEq wS := by
-  intro d
-  simp [wS, wC, openEscrow, AMap.sumBy, AMap.sumIf, escrowAmt, escrowed, coinAmt, Bank.balOf, AMap.getD,
-    AMap.get?, escrow]
-  split <;> simp_all
-
-/-- claiming it leaves 5 stake in escrow that no open contract accounts for -/
-theorem wS_claim_breaks : ¬ EscrowEq (run wS [.claim "A1" z64 z64]) := by
-  have hstep : step wS (.claim "A1" z64 z64) =
-      .ok (close { wS with bank := (sendCoins wS.bank escrow "M" [("stake", 5)]).1 } z64 (completed wC z64 10)) := by
-    have hid : hexOk64 z64 = true := by decide
-    have hsend : sendOk wS.bank escrow "M" [("stake", 5)] = some (sendCoins wS.bank escrow "M" [("stake", 5)]).1 := by
-      simp [sendOk, sendCoins, subCoins, addCoins, wS, Bank.balOf, Bank.setBal, AMap.getD, AMap.get?, AMap.set, escrow]
-    simp [step, stepClaim, hid, wS, AMap.get?, wC, claimFunds]
-    simp [wS, wC] at hsend
-    simp [hsend]
-  intro h
-  have h5 := h "stake"
-  simp only [run, List.foldl, apply, hstep] at h5
-  revert h5
-  simp [close, completed, wC, wS, openEscrow, AMap.sumBy, AMap.sumIf, AMap.set, escrowAmt, escrowed,
-    sendCoins, subCoins, addCoins, Bank.balOf, Bank.setBal, AMap.getD, AMap.get?, escrow]
-
-/-- **the full identity is false of the code** (negation by witness; finding F-htlc-self-recipient) -/
-theorem escrowEq_always_fails : ¬ EscrowEqAlways := by
-  intro h
-  exact wS_claim_breaks (h wS [.claim "A1" z64 z64] wS_inv wS_eq (by intro op hop; simp at hop; subst hop; trivial))
+/-- the escrow account itself is never accepted as a recipient -/
+theorem escrow_recipient_rejected (s : State) (sender : Addr) (coins : Coins) (lock : String) (ts tl : Nat)
+    (transfer : Bool) : ∃ why, step s (.create sender escrow coins lock ts tl transfer) = .error (.reject why) := by
+  simp only [step, stepCreate]
+  split
+  · exact ⟨_, rfl⟩
+  · split
+    · exact ⟨_, rfl⟩
+    · exact ⟨_, rfl⟩
 
 /-! ### limits, while the asset params are unchanged -/
 
